@@ -724,12 +724,64 @@ func c11Run(c *core.Ctx) {
 			}
 		}
 	})
+	c11Long(c)
+}
+
+// c11Long: the main-loop bookkeeping over 1300 records (next / nextfile /
+// exit / getline / range patterns inside functions and rules): state that
+// leaks per record only shows after many records. Oracle: reference evaluator.
+func c11Long(c *core.Ctx) {
+	in := progenum.LongInput(1300)
+	for i, src := range progenum.LongPrograms() {
+		if strings.Contains(src, "\"pre\"") || strings.Contains(src, "\"out") {
+			continue
+		}
+		if !c.Mine() || c.Expired() {
+			continue
+		}
+		cs := c11Case{Family: "long", Name: fmt.Sprintf("l%d", i), Src: src}
+		c11LongEval(c, cs, in)
+	}
+}
+
+func c11LongEval(c *core.Ctx, cs c11Case, in string) {
+	prog, err, pn := awk.Parse(cs.Src, nil)
+	if err != nil || pn != "" {
+		panic("C11 harness: long program rejected: " + cs.Src)
+	}
+	c.Add("states", 1)
+	c.Add("programs:long", 1)
+	impl := runImpl(prog, in, nil, "", false, 20000000)
+	c.Eval(1)
+	c.Add("transitions", 1)
+	if impl.Panic != "" {
+		c.Fail("panic:long", cs, firstLine(impl.Panic))
+		return
+	}
+	if impl.Budget {
+		c.Fail("runaway:long", cs, "implementation exceeded the step budget")
+		return
+	}
+	c.Outcome(impl.String())
+	ref, unsup := refObsLimit(prog, in, nil, 3000000)
+	if unsup != "" {
+		c.Add("ref_unsupported", 1)
+		return
+	}
+	c.Add("traces_validated_against_impl", 1)
+	if ok, kind := sameObs(impl, ref, false); !ok {
+		c.Fail("ref-mismatch:long:"+kind, cs, "impl: "+trunc(impl.String(), 300)+" ("+impl.ErrMsg+") || model: "+trunc(ref.String(), 300)+" ("+ref.ErrMsg+")")
+	}
 }
 
 func c11Replay(c *core.Ctx, raw json.RawMessage) {
 	var cs c11Case
 	if err := json.Unmarshal(raw, &cs); err != nil {
 		panic(err)
+	}
+	if cs.Family == "long" {
+		c11LongEval(c, cs, progenum.LongInput(1300))
+		return
 	}
 	st := c11NewState(c)
 	prog, err, pn := awk.Parse(cs.Src, nil)
@@ -746,7 +798,7 @@ func init() {
 		Level: "model_checking",
 		Rule: "complete enumeration of generated programs {BEGIN in none/getline/getline v/ARGV[1] edit/ARGC edit/ARGV append/exit} x {one or two rules; patterns: none, expression, regex, NR ranges closing later/on the same record/never, range on field values} x " +
 			"{actions of <= 2 operations from getline, getline v, getline < f, getline v < f, next, nextfile, exit k, each also inside a function (getline variable = local) and inside a loop (getline variable = array element)} x {END in trace/exit/getline}, in full-trace and lean-trace spelling, " +
-			"x operand lists (family ops1: every list of <= 3, thorough <= 4, operands from A, B, empty file, -, \"\", v=1, FS=,, missing file; other families: 4 to 16 fixed lists) x file fixtures with 0-3 records; " +
+			"x operand lists (family ops1: every list of <= 3, thorough <= 4, operands from A, B, empty file, -, \"\", v=1, FS=,, missing file; other families: 4 to 16 fixed lists) x file fixtures with 0-3 records; plus a family of long runs (1300 records; next / nextfile / exit / getline / ranges inside functions, recursion and loops; reference evaluator only); " +
 			"state = one program, transition = one execution on the real interpreter with real files; every execution is compared with the reference evaluator (stdout, exit status, error/no error) and its trace is checked against invariants derived from the statement; distinct = distinct observations",
 		Assumptions: []string{
 			"FILENAME before any named file was opened and while standard input is read is not prescribed: \"\" and \"-\" are treated as equal",
